@@ -423,11 +423,11 @@ Proof. vm_compute. reflexivity. Qed.
 Example ex_skeleton_modify :
   let t := mkTab (mkObj (Some m_) t_) [] [] [] false in
   plan_chains true (Some []) [RefSkeleton.ModifyTable t
-     [ModifyColumn c_ None (Some (Some m_, e1)) true false false true;
-      ModifyColumn ii None None true true false false;
+     [ModifyColumn c_ None (Some (Some m_, e1)) None None true false true;
+      ModifyColumn ii None None None (Some []) true false false;
       ModifyForeignKey (mkFk [c_] (mkObj (Some m_) [117])) (mkFk [c_] (mkObj (Some m_) [118]))]] =
     [ (false, h_create_sequence, [[seq_name t_ ii]; [t_; ii]]); (true, h_drop_sequence, [[seq_name t_ ii]]);
-      (false, h_alter_table, [[t_]; [e1]; [[118]]]); (true, h_alter_table, [[t_]; [[117]]]);
+      (false, h_alter_table, [[t_]; [e1]; [seq_name t_ ii]; [[118]]]); (true, h_alter_table, [[t_]; [[117]]]);
       (false, h_comment_on, [[t_; c_]]); (true, h_comment_on, [[t_; c_]]) ].
 Proof. vm_compute. reflexivity. Qed.
 
